@@ -344,11 +344,11 @@ def model(ctx):
     out = os.path.join(ctx.scratch, 'c17_export.json')
     env = {'OUT_FILE': out, 'TIER': ctx.tier}
     to = 1500 if ctx.tier == 'thorough' else 400
-    ctx.model_must_hold('MC_C17', 'MC_C17.cfg', env=env, timeout=to, label='paired tags, DecodeImpl of today')
+    ctx.model_must_hold('MC_C17', 'MC_C17.cfg', env=env, timeout=to, xmx='4g', label='paired tags, DecodeImpl of today')
     env2 = {'OUT_FILE': '', 'TIER': ctx.tier}
-    ctx.model_must_hold('MC_C17', 'MC_C17_fixed.cfg', env=env2, timeout=to,
+    ctx.model_must_hold('MC_C17', 'MC_C17_fixed.cfg', env=env2, timeout=to, xmx='4g',
                         label='every facet subset x every flag assignment, DecodeFixed')
-    ctx.model_must_hold('MC_C17', 'MC_C17_oriented.cfg', env=env2, timeout=to,
+    ctx.model_must_hold('MC_C17', 'MC_C17_oriented.cfg', env=env2, timeout=to, xmx='4g',
                         label='every facet subset x every flag assignment, DecodeImpl of today (finding #9)')
     recs = []
     if os.path.exists(out):
